@@ -36,6 +36,10 @@ func (s *Stats) Merge(o *Stats) {
 	}
 }
 
+// basepointUsed remembers (per OS process) whether a lazily built table has
+// been used yet: the first use in a process is the cold one.
+var basepointUsed = map[string]bool{}
+
 // KnownFinding is an entry of known_findings.txt that is tolerated (never a
 // "fixed:" entry).
 type KnownFinding struct {
@@ -210,8 +214,22 @@ func (r *Run) resolve(op *OpDesc, c *Call) *Operands {
 				return nil
 			}
 			o.B = r.Ledger[c.BL-1].B
+			o.Backing = o.B[:cap(o.B)]
 		default:
-			o.B = append([]byte{}, c.B...)
+			off, pad := c.BOff, c.BPad
+			if off < 0 || off > 1<<12 {
+				off = 0
+			}
+			if pad < 0 || pad > 1<<12 {
+				pad = 0
+			}
+			backing := make([]byte, off+len(c.B)+pad)
+			for i := range backing {
+				backing[i] = 0xA5 ^ byte(i*7)
+			}
+			copy(backing[off:], c.B)
+			o.B = backing[off : off+len(c.B)]
+			o.Backing = backing
 		}
 	}
 	return o
@@ -241,7 +259,9 @@ func (r *Run) resolveDistinct(op *OpDesc, c *Call, pre *Snap, aliased *Operands)
 		}
 	}
 	if op.Bytes && aliased.B != nil {
-		o.B = append([]byte{}, aliased.B...)
+		o.Backing = append([]byte{}, aliased.Backing...)
+		off := len(aliased.Backing) - cap(aliased.B)
+		o.B = o.Backing[off : off+len(aliased.B)]
 	}
 	return o
 }
@@ -379,7 +399,10 @@ func (r *Run) execLib(op *OpDesc, c *Call) []*Violation {
 	pre := w.Snapshot()
 	var bPre []byte
 	if ops.B != nil {
-		bPre = append([]byte{}, ops.B...)
+		bPre = append([]byte{}, ops.Backing...)
+		if cap(ops.B) > len(ops.B) {
+			st.Inc("probe/byte_input_with_spare_capacity")
+		}
 	}
 	var ledgerPre [][]byte
 	if r.armed("C19") {
@@ -521,6 +544,12 @@ func (r *Run) execLib(op *OpDesc, c *Call) []*Violation {
 	}
 
 	// --- successful return (possibly with an error result) ---
+	if op.Name == "Point.ScalarBaseMult" || op.Name == "Point.VarTimeDoubleScalarBaseMult" {
+		if !basepointUsed[op.Name] {
+			basepointUsed[op.Name] = true
+			st.Inc("probe/cold_first_use_of_lazy_table/" + op.Name)
+		}
+	}
 	recvPtr := ops.recvPtr()
 	failed := op.Fallible && out.Err != nil
 	if op.Fallible {
@@ -555,8 +584,8 @@ func (r *Run) execLib(op *OpDesc, c *Call) []*Violation {
 				add(r.viol("C14", "success-does-not-return-receiver", op.Name, op.Name+" succeeded but did not return its receiver"))
 			}
 		}
-		if ops.B != nil && !bytes.Equal(ops.B, bPre) {
-			add(r.viol("C14", "setter-modified-input", op.Name, op.Name+" modified its input byte slice"))
+		if ops.B != nil && !bytes.Equal(ops.Backing, bPre) {
+			add(r.viol("C14", "setter-modified-input", op.Name, op.Name+" modified its input byte slice (or the caller's buffer around it)"))
 		}
 	} else if out.HasRet && !op.Ctor && out.Ret != recvPtr {
 		prop := "--"
@@ -766,12 +795,9 @@ func (r *Run) frame(op *OpDesc, c *Call, pre *Snap, ops *Operands, bPre []byte, 
 			break
 		}
 	}
-	if ops.B != nil && !bytes.Equal(ops.B, bPre) && !op.Fallible {
-		vs = append(vs, r.viol("C11", "frame", op.Name+"/bytes", op.Name+" modified its input byte slice"))
-	}
-	if ops.B != nil && !bytes.Equal(ops.B, bPre) && op.Fallible {
-		// reported under C14 by the caller as well; C11 states it too
-		vs = append(vs, r.viol("C11", "frame", op.Name+"/bytes", op.Name+" modified its input byte slice"))
+	if ops.B != nil && !bytes.Equal(ops.Backing, bPre) {
+		// (for fallible setters the caller reports it under C14 as well)
+		vs = append(vs, r.viol("C11", "frame", op.Name+"/bytes", op.Name+" modified its input byte slice (or the caller's buffer around it)"))
 	}
 	if op.Multi {
 		for i := range hS {
